@@ -9,6 +9,7 @@ import (
 
 	"capnproto.org/go/capnp/v3"
 	"capnproto.org/go/capnp/v3/internal/errors"
+	"capnproto.org/go/capnp/v3/internal/verifhook"
 	rpccp "capnproto.org/go/capnp/v3/std/capnp/rpc"
 )
 
@@ -159,6 +160,7 @@ func NewConn(t Transport, opts *Options) *Conn {
 		abortErr := c.receive(c.bgctx)
 		c.tasks.Done()
 
+		verifhook.Yield(801)
 		c.mu.Lock()
 		select {
 		case <-c.bgctx.Done():
@@ -179,6 +181,7 @@ func NewConn(t Transport, opts *Options) *Conn {
 // Bootstrap returns the remote vat's bootstrap interface.  This creates
 // a new client that the caller is responsible for releasing.
 func (c *Conn) Bootstrap(ctx context.Context) *capnp.Client {
+	verifhook.Yield(803)
 	c.mu.Lock()
 	if !c.startTask() {
 		c.mu.Unlock()
@@ -241,6 +244,7 @@ func (bc bootstrapClient) Shutdown() {
 // Close sends an abort to the remote vat and closes the underlying
 // transport.
 func (c *Conn) Close() error {
+	verifhook.Yield(800)
 	c.mu.Lock()
 	if c.closed {
 		c.mu.Unlock()
@@ -282,6 +286,7 @@ func (c *Conn) shutdown(abortErr error) error {
 	// Wait for work to stop.
 	c.mu.Unlock()
 	c.tasks.Wait()
+	verifhook.Yield(802)
 	c.mu.Lock()
 
 	// Clear all tables, releasing exported clients and unfinished answers.
@@ -357,6 +362,7 @@ closeTransport:
 // returns a non-nil error, it is sent to the remove vat as an abort.
 func (c *Conn) receive(ctx context.Context) error {
 	for {
+		verifhook.Yield(808)
 		recv, releaseRecv, err := c.transport.RecvMessage(ctx)
 		if err != nil {
 			return err
@@ -948,6 +954,7 @@ func (c *Conn) handleReturn(ctx context.Context, ret rpccp.Return, releaseRet ca
 
 	// Send finish.
 	{
+		verifhook.Yield(809)
 		msg, send, release, err := c.transport.NewMessage(ctx)
 		if err != nil {
 			c.mu.Lock()
@@ -1335,6 +1342,7 @@ func (c *Conn) sendMessage(ctx context.Context, f func(msg rpccp.Message) error)
 		return err
 	}
 	c.mu.Unlock()
+	verifhook.Yield(804)
 	msg, send, release, err := c.transport.NewMessage(ctx)
 	if err != nil {
 		c.mu.Lock()
@@ -1347,6 +1355,7 @@ func (c *Conn) sendMessage(ctx context.Context, f func(msg rpccp.Message) error)
 		c.unlockSender()
 		return errorf("build message: %v", err)
 	}
+	verifhook.Yield(805)
 	err = send()
 	release()
 	c.mu.Lock()
@@ -1372,6 +1381,7 @@ func (c *Conn) tryLockSender(ctx context.Context) error {
 			break
 		}
 		c.mu.Unlock()
+		verifhook.Yield(806)
 		select {
 		case <-s:
 		case <-ctx.Done():
@@ -1396,6 +1406,7 @@ func (c *Conn) lockSender() {
 			break
 		}
 		c.mu.Unlock()
+		verifhook.Yield(807)
 		<-s
 		c.mu.Lock()
 	}
